@@ -31,7 +31,7 @@ ANCHORS = [
 REQUIRED_MONITORS = ["Circle.planar_moments_inertia", "Ellipse.planar_moments_inertia", "Ellipse.perimeter",
                      "Ellipsoid.surface_area", "Ellipsoid.inertia_tensor", "Sphere.inertia_tensor",
                      "Ellipse.iq", "Ellipsoid.iq"]
-REQUIRED_CLASSES = ["Circle", "Ellipse", "Sphere", "Ellipsoid", "axes:neartie", "axes:tie", "center:generic"]
+REQUIRED_CLASSES = ["Circle", "Ellipse", "Sphere", "Ellipsoid", "axes:neartie", "axes:tie", "center:generic", "history:set-then-read"]
 
 REL = 1e-9
 _cache = {}
@@ -218,6 +218,28 @@ def run_case(i, rng, rec, tier, state):
         except Exception as e:  # a getter of a valid shape must not raise
             rec.violation(f"{which}.{m}", f"{which}.{m}/raises-{type(e).__name__}",
                           {"class": which, "axes": ax, "center": c, "exc": repr(e)})
+    # history: the same object after a parameter or size assignment must still report the integrals of its *current*
+    # parameters (hidden caches filled by the reads above must not survive an assignment)
+    if i % 2 == 0:
+        names = {"Circle": ["radius", "area", "perimeter"], "Ellipse": ["a", "b", "area", "perimeter"],
+                 "Sphere": ["radius", "diameter", "volume", "surface_area"], "Ellipsoid": ["a", "b", "c", "volume", "surface_area"]}[which]
+        for _ in range(2):
+            nm = names[int(rng.integers(len(names)))]
+            try:
+                with contracts.quiet():
+                    cur = float(getattr(s, nm))
+                setattr(s, nm, cur * float(np.exp(rng.uniform(-1.5, 1.5))))
+                if rng.random() < 0.3:
+                    s.centroid = np.asarray(s.centroid, float) + rng.uniform(-2, 2, size=3) * (1 if dims == 3 else np.array([1, 1, 0]))
+            except Exception as e:
+                rec.violation(f"{which}.{nm}", f"{which}.{nm}.setter/raises-{type(e).__name__}", {"class": which, "axes": ax, "exc": repr(e)})
+                break
+            rec.cls("history:set-then-read")
+            for m in members:
+                try:
+                    getattr(s, m)
+                except Exception as e:
+                    rec.violation(f"{which}.{m}", f"{which}.{m}/raises-after-assignment-{type(e).__name__}", {"class": which, "axes": ax, "exc": repr(e)})
     nz = c[c != 0]
     nontriv = (len(set(np.abs(nz))) == len(nz) and len(nz) >= 2) or list(ax) != sorted(ax) or mode == "neartie"
     if nontriv:
